@@ -8,12 +8,18 @@ import (
 // parallelBatch is an iterator processor that runs in parallel, calling a given delegate for each iterator item seen.
 func parallelBatch[A any](ctx context.Context, fn func(context.Context, A) error, iter func() (A, bool), parallelism int) (err error) {
 	var errOnce sync.Once
-	sem := make(chan A, parallelism)
+	// sem bounds how many calls to fn are in progress: a slot is taken before the
+	// goroutine for an item is started and given back only when fn has returned. Handing
+	// the item itself through the channel, as this did before, freed the slot as soon as
+	// the goroutine received it -- that is, before fn ran -- so nothing was bounded and
+	// every item of a batch ran at once whatever the parallelism.
+	sem := make(chan struct{}, parallelism)
 	wg := new(sync.WaitGroup)
 
-	process := func() {
+	process := func(item A) {
 		defer wg.Done()
-		workErr := fn(ctx, <-sem)
+		defer func() { <-sem }()
+		workErr := fn(ctx, item)
 		if workErr != nil {
 			errOnce.Do(func() {
 				err = workErr
@@ -22,9 +28,9 @@ func parallelBatch[A any](ctx context.Context, fn func(context.Context, A) error
 	}
 	w, ok := iter()
 	for ok {
-		sem <- w
+		sem <- struct{}{}
 		wg.Add(1)
-		go process()
+		go process(w)
 		w, ok = iter()
 	}
 	wg.Wait()
